@@ -32,6 +32,10 @@ class Hang(BaseException):
     pass
 
 
+SPIN_CAP = 300000
+WATCHDOG_S = 600  # wall-clock fallback for a run() call that neither finishes nor reaches any harness callback
+
+
 class World:
     cur = None  # the Run currently executing (harness objects report to it)
 
@@ -228,6 +232,21 @@ class VBase:
 class VComp(VBase, fm.TimeComponent):
     """the usual case: derived from the sdk's TimeComponent"""
 
+    # every read of the component's time is counted: a driver that spins without updating anybody (no harness callback runs) is
+    # reported as a hang after SPIN_CAP reads since the last update instead of blocking the check
+    @property
+    def time(self):
+        w = World.cur
+        if w is not None:
+            w.spin += 1
+            if w.spin > SPIN_CAP:
+                raise Hang()
+        return fm.TimeComponent.time.fget(self)
+
+    @time.setter
+    def time(self, t):
+        fm.TimeComponent.time.fset(self, t)
+
 
 class IVComp(VBase, fm.ITimeComponent, fm.Component):
     """a component with its own clock: implements the ITimeComponent interface directly (allowed by the documentation),
@@ -376,6 +395,7 @@ class Run:
         self.script = list(script) if script is not None else None
         self.stats = collections.Counter()
         self.updates = 0
+        self.spin = 0
         self.cap = cfg.get("update_cap", 400)
         self.ctx = []  # call context stack: (component name, pull time in hours)
         self.in_update = None
@@ -537,6 +557,7 @@ class Run:
         return res
 
     def on_update_entry(self, U, nt):
+        self.spin = 0
         self.updates += 1
         self.stats["updates"] += 1
         if self.updates > self.cap:
@@ -656,7 +677,27 @@ class Run:
         """(re-)enters the real run(); returns ('pause', comp) | ('done',) | ('circular', msg) | ('exc', cls, msg) | ('hang',)"""
         World.cur = self
         set_time_unit(self.cfg.get("unit_us", 3600 * 10**6))
+        import signal
+
+        def _alarm(_s, _f):
+            raise Hang()
+
+        old = None
         try:
+            old = signal.signal(signal.SIGALRM, _alarm)
+            signal.alarm(WATCHDOG_S)
+        except ValueError:  # not in the main thread
+            old = None
+        try:
+            return self._resume()
+        finally:
+            if old is not None:
+                signal.alarm(0)
+                signal.signal(signal.SIGALRM, old)
+
+    def _resume(self):
+        try:
+            self.spin = 0
             self.c.run(end_time=T0 + H(self.end))
             self.outcome = ("done",)
             self.check_terminal()
